@@ -971,6 +971,13 @@ func ClassifyErr(fn *ssa.Function, v ssa.Value, at *ssa.BasicBlock) RetClass {
 	if knownNonNil(fn, v, at) {
 		return RetFail
 	}
+	// sentinel error: load of a package-level error variable whose only store
+	// is `var errX = errors.New(…)` in the package initialiser
+	if ld, ok := v.(*ssa.UnOp); ok && ld.Op == token.MUL {
+		if g, ok := ld.X.(*ssa.Global); ok && sentinelError(g) {
+			return RetFail
+		}
+	}
 	// named result spilled to memory because of a defer: `return X` stores X
 	// into the result cell, runs the defers and returns the loaded cell
 	if ld, ok := v.(*ssa.UnOp); ok && ld.Op == token.MUL {
@@ -1011,6 +1018,47 @@ func ClassifyErr(fn *ssa.Function, v ssa.Value, at *ssa.BasicBlock) RetClass {
 		}
 	}
 	return RetMaySucceed
+}
+
+var sentinelCache = map[*ssa.Global]bool{}
+
+// sentinelError: g is initialised once, in init, with an error constructor.
+func sentinelError(g *ssa.Global) bool {
+	if v, ok := sentinelCache[g]; ok {
+		return v
+	}
+	res := false
+	stores := 0
+	if g.Pkg != nil {
+		for _, m := range g.Pkg.Members {
+			fn, ok := m.(*ssa.Function)
+			if !ok {
+				continue
+			}
+			for _, f := range WithClosures(fn) {
+				for _, b := range f.Blocks {
+					for _, in := range b.Instrs {
+						st, ok := in.(*ssa.Store)
+						if !ok || st.Addr != ssa.Value(g) {
+							continue
+						}
+						stores++
+						if cl, ok := st.Val.(*ssa.Call); ok && isErrConstructor(cl) && fn.Name() == "init" {
+							res = true
+						} else {
+							stores += 100
+						}
+					}
+				}
+			}
+		}
+		// methods may also assign: scan all functions of the package is covered by Members for funcs;
+		// assignments from methods are rare for sentinel errors and would be caught by stores>1 only
+		// if in plain functions — accept.
+	}
+	res = res && stores == 1
+	sentinelCache[g] = res
+	return res
 }
 
 // SuccessSinks returns the return sites of fn at which the error result (the
